@@ -31,9 +31,14 @@ RULE = ('fit: full product lag 1..4 x builder {normalize,transpose,mle} x trim x
         'state count / trimming actually change the result.  saveload: every fitted estimator of a '
         'subset, into a fresh temporary directory.  mapping: random injective id maps in random order. '
         'eig: ergodic row-stochastic matrices of 2..8 states of kinds dense / cyclic (complex pairs) / '
-        'bipartite (negative eigenvalues) / reversible / lazy ring (doubly stochastic) / exact 2-state, '
+        'bipartite (negative eigenvalues) / reversible / lazy ring (doubly stochastic) / exact 2-state / '
+        'integer n-cycle, float64 / float32 / int64 dtype, '
         'dense, csr and coo input, n_eigs None/2..n/n+2, left and right.  timescales and ensemble: '
-        'random trajectories / matrices.  distinct by canonical input')
+        'random trajectories (assignment dtypes int64/int32/int16/int8/uint8, lag_times as list/tuple/'
+        'ndarray) / matrices; ensemble starts as float64, float32, int64/int32 one-hot, integer walker '
+        'counts and Python lists, float64/float32 matrices, dense/csr/coo, with and without an '
+        'observable, every returned row compared with repeated float64 left multiplication.  '
+        'distinct by canonical input')
 ASSUMPTIONS = [
     'LAPACK (scipy.linalg.eig) returns the same decomposition for the same input within one process '
     '(used to feed the model the raw decomposition the library post-processes)',
@@ -121,12 +126,19 @@ def ref_counts(rows, lag, sliding, n):
     return C
 
 
-def make_assigns(rows, form):
+ASSIGN_DTYPES = ('int64', 'int64', 'int32', 'int16', 'int8', 'uint8')
+
+
+def make_assigns(rows, form, dtype='int64'):
+    """state ids are < 7 here, so every listed dtype holds them; unsigned types cannot hold the
+    -1 padding and are used for ragged input only"""
     if form == 'ragged':
         from enspara import ra
-        return ra.RaggedArray([np.array(r, dtype=int) for r in rows])
+        return ra.RaggedArray([np.array(r, dtype=np.dtype(dtype)) for r in rows])
+    if dtype.startswith('uint'):
+        dtype = dtype[1:]
     L = max(len(r) for r in rows)
-    a = -np.ones((len(rows), L), dtype=int)
+    a = -np.ones((len(rows), L), dtype=np.dtype(dtype))
     for i, r in enumerate(rows):
         a[i, :len(r)] = r
     return a
@@ -141,12 +153,13 @@ def mapping_dict(tm):
 def run_estimator(case):
     from enspara.msm import MSM, builders
     method = case['builder'] if case['by_name'] else getattr(builders, case['builder'], case['builder'])
-    a = make_assigns(case['rows'], case['form'])
+    a = make_assigns(case['rows'], case['form'], case.get('dtype', 'int64'))
+    lag = np.int64(case['lag']) if case.get('np_lag') else case['lag']
     try:
         if case.get('positional'):
-            m = MSM(case['lag'], method, case['trim'], case['sliding'], case['max_n'])
+            m = MSM(lag, method, case['trim'], case['sliding'], case['max_n'])
         else:
-            m = MSM(lag_time=case['lag'], method=method, trim=case['trim'],
+            m = MSM(lag_time=lag, method=method, trim=case['trim'],
                     sliding_window=case['sliding'], max_n_states=case['max_n'])
         m.fit(a)
     except Exception as e:  # noqa
@@ -157,7 +170,7 @@ def run_estimator(case):
 def run_pipeline(case):
     from enspara.msm import builders
     from enspara.msm.transition_matrices import assigns_to_counts, trim_disconnected
-    a = make_assigns(case['rows'], case['form'])
+    a = make_assigns(case['rows'], case['form'], case.get('dtype', 'int64'))
     out = {}
     try:
         builder = getattr(builders, case['builder'])
@@ -212,7 +225,7 @@ def check_fit(ctx, case, m, err, pipe, model):
     rows, lag = case['rows'], case['lag']
     tags = ['fit', 'lag=%d' % lag, 'builder=%s' % case['builder'], 'trim' if case['trim'] else 'no-trim',
             'sliding' if case['sliding'] else 'strided', 'explicit-n' if case['max_n'] is not None else 'inferred-n',
-            case['form'], 'by-name' if case['by_name'] else 'callable']
+            case['form'], 'by-name' if case['by_name'] else 'callable', 'assigns-%s' % case.get('dtype', 'int64')]
     nontrivial = False
     if 'raw' in pipe:
         n = pipe['raw'].shape[0]
@@ -328,7 +341,8 @@ def gen_fit_case(rng, lag, builder, trim, sliding, explicit):
     max_n = int(mx + rng.integers(0, 3)) if explicit else None
     return {'rows': rows, 'lag': lag, 'builder': builder, 'trim': trim, 'sliding': sliding,
             'max_n': max_n, 'form': 'ragged' if rng.random() < 0.5 else 'padded',
-            'by_name': bool(rng.random() < 0.4), 'positional': bool(rng.random() < 0.3)}
+            'by_name': bool(rng.random() < 0.4), 'positional': bool(rng.random() < 0.3),
+            'dtype': str(rng.choice(ASSIGN_DTYPES)), 'np_lag': bool(rng.random() < 0.15)}
 
 
 def keep_states(case):
@@ -338,7 +352,7 @@ def keep_states(case):
     from enspara.msm.transition_matrices import assigns_to_counts, trim_disconnected
     try:
         with quiet():
-            C = assigns_to_counts(make_assigns(case['rows'], case['form']), lag_time=case['lag'],
+            C = assigns_to_counts(make_assigns(case['rows'], case['form'], case.get('dtype', 'int64')), lag_time=case['lag'],
                                   max_n_states=case['max_n'], sliding_window=case['sliding'])
             mp, _ = trim_disconnected(C)
         return sorted(int(v) for v in mp.to_original.values())
@@ -398,7 +412,7 @@ def check_saveload(ctx, case, m, model=None):
     ctx.case(rep, nontrivial=True, tags=['saveload', 'saveload-%s' % case['builder'],
                                          'saveload-states=%d' % min(dense(m.tcounts_).shape[0], 4)])
     bad = []
-    if m2.lag_time != m.lag_time or type(m2.lag_time) is not type(m.lag_time):
+    if m2.lag_time != m.lag_time or type(m2.lag_time) is not type(m.lag_time):  # pickle keeps the type
         bad.append('lag_time')
     if bool(m2.sliding_window) != bool(m.sliding_window):
         bad.append('sliding_window')
@@ -545,13 +559,30 @@ EIG_KINDS = ('dense', 'cyclic', 'bipartite', 'reversible', 'ring', 'two')
 
 
 def gen_eig_case(rng, kind=None):
-    kind = kind or str(rng.choice(EIG_KINDS))
+    kind = kind or str(rng.choice(EIG_KINDS + ('perm',)))
     n = 2 if kind == 'two' else int(rng.integers(2, 9))
-    T = gen_T(rng, kind, n)
+    if kind == 'perm':
+        # integer dtype: a single n-cycle (irreducible; unique stationary distribution, the other
+        # unit-modulus eigenvalues have real part < 1)
+        order = [int(x) for x in rng.permutation(n)]
+        T = np.zeros((n, n))
+        for i in range(n):
+            T[order[i], order[(i + 1) % n]] = 1
+        dtype = 'int64'
+    else:
+        T = gen_T(rng, kind, n)
+        dtype = 'float32' if rng.random() < 0.25 else 'float64'
+        if dtype == 'float32':
+            T = T.astype(np.float32).astype(np.float64)
     r = rng.random()
     n_eigs = None if r < 0.4 else (int(rng.integers(2, n + 1)) if r < 0.9 else n + 2)
     return {'T': T.tolist(), 'kind_T': kind, 'n_eigs': n_eigs, 'left': bool(rng.random() < 0.8),
-            'form': str(rng.choice(['dense', 'dense', 'csr', 'coo']))}
+            'form': str(rng.choice(['dense', 'dense', 'csr', 'coo'])), 'dtype': dtype}
+
+
+def eig_arg(case):
+    """the matrix in the dtype handed to the library (float32 values are stored exactly in the case)"""
+    return np.array(case['T'], dtype=np.dtype(case.get('dtype', 'float64')))
 
 
 def stationary(T):
@@ -564,7 +595,7 @@ def stationary(T):
 
 def eig_request(case):
     import scipy.linalg
-    T = np.array(case['T'], dtype=float)
+    T = eig_arg(case)
     with quiet():
         vals, vecs = scipy.linalg.eig(T.T if case['left'] else T)
     vals = np.asarray(vals, dtype=complex)
@@ -577,16 +608,20 @@ def eig_request(case):
 def check_eig(ctx, case, model, raw_vals):
     import scipy.sparse
     from enspara.msm.transition_matrices import eigenspectrum
-    T = np.array(case['T'], dtype=float)
+    T = np.array(case['T'], dtype=float)       # float64 view for the oracles (exact for every dtype used)
+    Targ = eig_arg(case)
     n = T.shape[0]
-    arg = {'dense': T, 'csr': scipy.sparse.csr_matrix(T), 'coo': scipy.sparse.coo_matrix(T)}[case['form']]
+    arg = {'dense': Targ, 'csr': scipy.sparse.csr_matrix(Targ), 'coo': scipy.sparse.coo_matrix(Targ)}[case['form']]
     rep = dict(case, kind='eig')
+    # single-precision input is decomposed in single precision (also by the unchanged code)
+    f = 3e4 if case.get('dtype') == 'float32' else 1.0
+    tight = 1e-5 if case.get('dtype') == 'float32' else 1e-12
     mu = np.linalg.eigvals(T)                  # independent of the library's call
     has_complex = bool(np.any(np.abs(mu.imag) > 1e-9))
     has_negative = bool(np.any((np.abs(mu.imag) <= 1e-9) & (mu.real < -1e-9)))
     ctx.case(rep, nontrivial=True,
              tags=['eig', 'eig-%s' % case['kind_T'], 'eig-n=%d' % n, 'eig-form=%s' % case['form'],
-                   'eig-left' if case['left'] else 'eig-right',
+                   'eig-left' if case['left'] else 'eig-right', 'eig-dtype=%s' % case.get('dtype', 'float64'),
                    'eig-n_eigs=%s' % ('None' if case['n_eigs'] is None else
                                       ('>n' if case['n_eigs'] > n else ('n' if case['n_eigs'] == n else '<n')))]
              + (['eig-complex-pair'] if has_complex else []) + (['eig-negative'] if has_negative else []))
@@ -610,25 +645,25 @@ def check_eig(ctx, case, model, raw_vals):
     if np.any(vals[:-1] < vals[1:]):
         ctx.violation('eigenvalues are not in descending order', dict(rep, vals=vals.tolist()))
         return
-    if abs(vals[0] - 1) > 1e-9:
+    if abs(vals[0] - 1) > 1e-9 * f:
         ctx.violation('leading eigenvalue is %r, not one' % float(vals[0]), rep)
         return
     want = np.sort(mu.real)[::-1][:k]
-    if not np.allclose(vals, want, rtol=0, atol=1e-7):
+    if not np.allclose(vals, want, rtol=0, atol=1e-7 * f):
         ctx.violation('returned eigenvalues are not the largest real parts of the spectrum', dict(rep, vals=vals.tolist(), want=want.tolist()))
         return
     v0 = vecs[:, 0]
-    if abs(v0.sum() - 1) > 1e-9:
+    if abs(v0.sum() - 1) > 1e-9 * f:
         ctx.violation('first eigenvector sums to %r, not one' % float(v0.sum()), rep)
         return
     M = T if case['left'] else T.T            # v^T M = lambda v^T
     if case['left']:
         pi = stationary(T)
-        if np.max(np.abs(v0 @ T - v0)) > 1e-9 or np.max(np.abs(v0 - pi)) > 1e-8 or v0.min() < -1e-10:
+        if np.max(np.abs(v0 @ T - v0)) > 1e-9 * f or np.max(np.abs(v0 - pi)) > 1e-8 * f or v0.min() < -1e-10 * f:
             ctx.violation('first left eigenvector is not the stationary distribution', dict(rep, v0=v0.tolist(), pi=pi.tolist()))
             return
     else:
-        if np.max(np.abs(T @ v0 - v0)) > 1e-9:
+        if np.max(np.abs(T @ v0 - v0)) > 1e-9 * f:
             ctx.violation('first right eigenvector is not an eigenvector for eigenvalue one', rep)
             return
     for j in range(1, k):
@@ -638,23 +673,23 @@ def check_eig(ctx, case, model, raw_vals):
             ctx.violation('eigenvector %d is zero' % j, rep)
             return
         best = np.inf
-        for z in mu[np.abs(mu.real - vals[j]) < 1e-6]:
+        for z in mu[np.abs(mu.real - vals[j]) < 1e-6 * f]:
             A = M.T - z.real * np.eye(n)
             if abs(z.imag) <= 1e-9:
                 res = np.max(np.abs(A @ v))
             else:                              # real part of a complex eigenvector: invariant plane
                 res = np.max(np.abs(A @ (A @ v) + z.imag ** 2 * v))
             best = min(best, res / scale)
-        if not best <= 1e-7:
+        if not best <= 1e-7 * f:
             ctx.violation('vector %d is not (the real part of) an eigenvector for the returned eigenvalue '
                           '(residual %.3g)' % (j, best), dict(rep, column=j))
             return
     if case['kind_T'] == 'two':
         a, b = T[0, 1], T[1, 0]
-        if abs(vals[1] - (1 - a - b)) > 1e-12 or (case['left'] and np.max(np.abs(v0 - np.array([b, a]) / (a + b))) > 1e-12):
+        if abs(vals[1] - (1 - a - b)) > tight or (case['left'] and np.max(np.abs(v0 - np.array([b, a]) / (a + b))) > tight):
             ctx.violation('2-state chain: spectrum differs from the closed form (1, 1-a-b), pi=(b,a)/(a+b)', rep)
             return
-    if case['kind_T'] == 'ring' and np.max(np.abs(v0 - 1.0 / n)) > 1e-9:
+    if case['kind_T'] in ('ring', 'perm') and np.max(np.abs(v0 - 1.0 / n)) > 1e-9 * f:
         ctx.violation('doubly stochastic chain: first eigenvector is not uniform', rep)
         return
     # --- model: the library's post-processing of the raw decomposition
@@ -669,7 +704,7 @@ def check_eig(ctx, case, model, raw_vals):
     re = raw_vals.real
     for j in range(k):
         mcol = np.array([float(unfrac(q)) for q in ok['cols'][j]])
-        tol = 1e-12 if j == 0 else 0.0
+        tol = tight if j == 0 else 0.0
         if mcol.shape == (n,) and np.allclose(mcol, vecs[:, j], rtol=tol, atol=tol):
             continue
         idx = ok['order'][j]
@@ -683,7 +718,7 @@ def check_eig(ctx, case, model, raw_vals):
 
 def section_eig(ctx):
     rng = ctx.rng
-    cases = [gen_eig_case(rng, kind) for kind in EIG_KINDS for _ in range(ctx.n(4, 100))]
+    cases = [gen_eig_case(rng, kind) for kind in EIG_KINDS + ('perm',) for _ in range(ctx.n(4, 100))]
     cases += [gen_eig_case(rng) for _ in range(ctx.n(126, 4000))]
     reqs, raws = [], []
     for c in cases:
@@ -718,7 +753,7 @@ def check_timescales(ctx, case, model_nt):
     from enspara.msm import builders, implied_timescales
     from enspara.msm.transition_matrices import assigns_to_counts, trim_disconnected, eigenspectrum
     rows, lags = case['rows'], case['lags']
-    a = make_assigns(rows, case['form'])
+    a = make_assigns(rows, case['form'], case.get('dtype', 'int64'))
     builder = getattr(builders, case['builder'])
     rep = dict(case, kind='timescales')
     n_states = max(max(r) for r in rows) + 1
@@ -730,7 +765,9 @@ def check_timescales(ctx, case, model_nt):
     ctx.case(rep, nontrivial=True, tags=['timescales', 'timescales-%s' % case['builder'],
                                          'timescales-n_times=%s' % ('None' if case['n_times'] is None else 'given'),
                                          'timescales-trim' if case['trim'] else 'timescales-no-trim',
-                                         'timescales-sliding' if case['sliding'] else 'timescales-strided'])
+                                         'timescales-sliding' if case['sliding'] else 'timescales-strided',
+                                         'timescales-assigns-%s' % case.get('dtype', 'int64'),
+                                         'timescales-lags-%s' % case.get('lags_kind', 'list')])
     # by hand: fitted T per lag, the library's own (separately checked) eigenspectrum, and an independent one
     expected, indep = [], []
     try:
@@ -751,7 +788,8 @@ def check_timescales(ctx, case, model_nt):
         return
     try:
         with quiet():
-            got = implied_timescales(a, lags, builder, n_times=case['n_times'],
+            lags_arg = {'list': list(lags), 'tuple': tuple(lags), 'ndarray': np.array(lags)}[case.get('lags_kind', 'list')]
+            got = implied_timescales(a, lags_arg, builder, n_times=case['n_times'],
                                      sliding_window=case['sliding'], trim=case['trim'])
     except Exception as e:  # noqa
         ctx.violation('implied_timescales raised %s where the pipeline by hand works' % type(e).__name__, rep)
@@ -795,7 +833,8 @@ def gen_timescales(rng):
     n_times = None if r < 0.3 else int(rng.integers(1, nstates + 2))
     return {'rows': rows, 'lags': lags, 'builder': str(rng.choice(BUILDERS)), 'n_times': n_times,
             'sliding': bool(rng.random() < 0.6), 'trim': trim,
-            'form': 'ragged' if rng.random() < 0.5 else 'padded'}
+            'form': 'ragged' if rng.random() < 0.5 else 'padded',
+            'dtype': str(rng.choice(ASSIGN_DTYPES)), 'lags_kind': str(rng.choice(['list', 'tuple', 'ndarray']))}
 
 
 def timescales_request(case):
@@ -812,66 +851,119 @@ def section_timescales(ctx):
 
 # ----------------------------------------------------------------------------- synthetic ensemble
 
+P_KINDS = ('float64', 'float64', 'int64-onehot', 'int32-onehot', 'int-walkers', 'float32', 'list')
+
+
+def ensemble_inputs(case):
+    """(T as handed to the library before the container choice, init_pops as handed over,
+    float64 views of both for the oracle).  Every listed dtype converts to float64 exactly."""
+    T = np.array(case['T'], dtype=np.float32 if case.get('T_dtype') == 'float32' else np.float64)
+    kind = case.get('p_kind', 'float64')
+    if kind == 'list':
+        p0 = [float(x) for x in case['p']]
+    elif kind in ('int64-onehot', 'int-walkers'):
+        p0 = np.array(case['p'], dtype=np.int64)
+    elif kind == 'int32-onehot':
+        p0 = np.array(case['p'], dtype=np.int32)
+    elif kind == 'float32':
+        p0 = np.array(case['p'], dtype=np.float32)
+    else:
+        p0 = np.array(case['p'], dtype=np.float64)
+    return T, p0, T.astype(np.float64), np.asarray(p0, dtype=np.float64)
+
+
 def check_ensemble(ctx, case, model):
     import scipy.sparse
     from enspara.msm.synthetic_data import synthetic_ensemble
-    T = np.array(case['T'], dtype=float)
-    p0 = np.array(case['p'], dtype=float)
+    Targ, p0arg, T, p0 = ensemble_inputs(case)
     steps = case['n_steps']
     n = T.shape[0]
-    arg = {'dense': T, 'csr': scipy.sparse.csr_matrix(T), 'coo': scipy.sparse.coo_matrix(T)}[case['form']]
-    obs_w = None if case['obs'] is None else np.array(case['obs'], dtype=float)
+    pk, tk = case.get('p_kind', 'float64'), case.get('T_dtype', 'float64')
+    arg = {'dense': Targ, 'csr': scipy.sparse.csr_matrix(Targ), 'coo': scipy.sparse.coo_matrix(Targ)}[case['form']]
+    obs_w = None if case['obs'] is None else np.array(
+        case['obs'], dtype=np.int64 if case.get('obs_kind') == 'int64' else np.float64)
     rep = dict(case, kind='ensemble')
     ctx.case(rep, nontrivial=steps > 1, tags=['ensemble', 'ensemble-steps=%d' % min(steps, 5),
                                               'ensemble-form=%s' % case['form'],
+                                              'ensemble-init=%s' % pk, 'ensemble-T=%s' % tk,
                                               'ensemble-observable' if obs_w is not None else 'ensemble-populations'])
+    # single-precision matrix AND single-precision start: the multiplication itself runs in float32
+    # (also in the unchanged code); everything else must be float64-accurate
+    tol = 2e-5 if (pk == 'float32' and tk == 'float32') else TOL
+    scale = max(1.0, float(np.max(np.abs(p0)))) * (1.0 if obs_w is None else max(1.0, float(np.max(np.abs(obs_w)))) * n)
+
+    def near(a, b):
+        a, b = np.asarray(a, dtype=float), np.asarray(b, dtype=float)
+        return a.shape == b.shape and bool(np.all(np.abs(a - b) <= tol * scale))
     try:
         with quiet():
-            p, obs = synthetic_ensemble(arg, p0.copy(), steps, observable_per_state=obs_w)
+            p, obs = synthetic_ensemble(arg, p0arg, steps, observable_per_state=obs_w)
     except Exception as e:  # noqa
         ctx.violation('synthetic_ensemble raised %s' % type(e).__name__, rep)
         return
     nmul = max(steps - 1, 0)
-    # n multiplications by T, one at a time, and p0 T^k through the matrix power
+    # n multiplications by T, one at a time (float64), and p0 T^k through the matrix power
     seq = [p0.copy()]
     for _ in range(nmul):
         seq.append(seq[-1] @ T)
     seq = np.array(seq)
     powers = np.array([p0 @ np.linalg.matrix_power(T, k) for k in range(nmul + 1)])
     p, obs = np.asarray(p, dtype=float), np.asarray(obs, dtype=float)
-    if p.shape != (n,) or not close(p, seq[-1]) or not close(p, powers[-1]):
-        ctx.violation('synthetic_ensemble: final populations differ from p0 T^%d' % nmul, dict(rep, got=p.tolist()))
+    if p.shape != (n,) or not near(p, seq[-1]) or not near(p, powers[-1]):
+        ctx.violation('synthetic_ensemble: final populations differ from p0 T^%d (init_pops %s, T %s)' % (nmul, pk, tk),
+                      dict(rep, got=p.tolist()))
         return
     want = seq if obs_w is None else seq @ obs_w
     want2 = powers if obs_w is None else powers @ obs_w
-    if obs.shape != want.shape or not close(obs, want) or not close(obs, want2):
-        ctx.violation('synthetic_ensemble: observation k differs from p0 T^k%s' % (' . observable' if obs_w is not None else ''),
-                      dict(rep, got=obs.tolist()))
+    if obs.shape != want.shape or not near(obs, want) or not near(obs, want2):
+        bad = [k for k in range(min(len(obs), len(want))) if not near(obs[k], want[k])] if obs.shape == want.shape else []
+        ctx.violation('synthetic_ensemble: observation %s differs from p0 T^k%s (init_pops %s, T %s)' % (
+            bad[:3] if bad else 'array shape', ' . observable' if obs_w is not None else '', pk, tk),
+            dict(rep, got=obs.tolist(), expected=np.asarray(want).tolist()))
         return
     if ensemble_model_cost(case) > 3000:
         ctx.tag('ensemble-model-not-asked (cost)')
         return
     ok = model.get('ok')
-    if not ok or len(ok['p']) != n or not all(rat_close(q, x) for q, x in zip(ok['p'], p)):
+    mtol = tol * scale
+    if not ok or len(ok['p']) != n or not all(rat_close(q, x, mtol) for q, x in zip(ok['p'], p)):
         ctx.disagreement('Model.Msm syntheticEnsemble final populations vs synthetic_ensemble', dict(rep, model=model))
         return
-    if obs_w is None and not rat_mat_close(ok['obs'], obs):
+    if obs_w is None and not rat_mat_close(ok['obs'], obs, mtol):
         ctx.disagreement('Model.Msm syntheticEnsemble observations vs synthetic_ensemble', dict(rep, model=ok['obs']))
 
 
-def gen_ensemble(rng):
+def gen_ensemble(rng, p_kind=None):
     n = int(rng.integers(1, 6))
     kind = str(rng.choice(['dense', 'cyclic', 'ring'])) if n > 1 else 'dense'
     T = gen_T(rng, kind, n)
-    p = rng.random(n)
-    if rng.random() < 0.3:
+    p_kind = p_kind or str(rng.choice(P_KINDS))
+    T_dtype = 'float32' if rng.random() < 0.2 else 'float64'
+    if T_dtype == 'float32':
+        T = T.astype(np.float32).astype(np.float64)
+    if p_kind in ('int64-onehot', 'int32-onehot'):
         p = np.zeros(n)
-        p[int(rng.integers(0, n))] = 1.0
+        p[int(rng.integers(0, n))] = 1
+    elif p_kind == 'int-walkers':
+        p = rng.integers(0, 200, size=n).astype(float)
     else:
-        p = p / p.sum()
-    return {'T': T.tolist(), 'p': p.tolist(), 'n_steps': int(rng.choice([0, 1, 2, 3, 4, 6, 9])),
-            'form': str(rng.choice(['dense', 'csr', 'coo'])),
-            'obs': None if rng.random() < 0.6 else rng.normal(size=n).tolist()}
+        p = rng.random(n)
+        if rng.random() < 0.3:
+            p = np.zeros(n)
+            p[int(rng.integers(0, n))] = 1.0
+        else:
+            p = p / p.sum()
+        if p_kind == 'float32':
+            p = p.astype(np.float32).astype(np.float64)
+    # a Python list start has no .dot: the observable branch is documented for arrays only
+    with_obs = p_kind != 'list' and rng.random() < 0.4
+    obs_kind = 'int64' if (with_obs and rng.random() < 0.3) else 'float64'
+    obs = None
+    if with_obs:
+        obs = [int(x) for x in rng.integers(-5, 6, size=n)] if obs_kind == 'int64' else rng.normal(size=n).tolist()
+    return {'T': T.tolist(), 'T_dtype': T_dtype, 'p': p.tolist(), 'p_kind': p_kind,
+            'n_steps': int(rng.choice([0, 1, 2, 2, 3, 3, 4, 6, 9])),
+            'form': str(rng.choice(['dense', 'csr', 'coo'])), 'obs': obs, 'obs_kind': obs_kind}
 
 
 def ensemble_model_cost(case):
@@ -887,7 +979,8 @@ def ensemble_request(case):
 
 
 def section_ensemble(ctx):
-    cases = [gen_ensemble(ctx.rng) for _ in range(ctx.n(100, 3000))]
+    cases = [gen_ensemble(ctx.rng, pk) for pk in sorted(set(P_KINDS)) for _ in range(ctx.n(6, 60))]
+    cases += [gen_ensemble(ctx.rng) for _ in range(ctx.n(100, 3000))]
     resp = ctx.driver([ensemble_request(c) for c in cases])
     for c, r in zip(cases, resp):
         check_ensemble(ctx, c, r)
@@ -915,6 +1008,8 @@ def replay(ctx, data):
     if kind in ('fit', 'saveload'):
         c = {k: data[k] for k in ('rows', 'lag', 'builder', 'trim', 'sliding', 'max_n', 'form', 'by_name')}
         c['positional'] = bool(data.get('positional'))
+        c['dtype'] = data.get('dtype', 'int64')
+        c['np_lag'] = bool(data.get('np_lag'))
         r = ctx.driver([fit_request(c, keep_states(c))])[0]
         m, err, pipe = fit_real(c)
         m = check_fit(ctx, c, m, err, pipe, r)
@@ -925,13 +1020,19 @@ def replay(ctx, data):
         check_mapping(ctx, c, ctx.driver([{'op': 'C16.mapping', 'pairs': c['pairs']}])[0])
     elif kind == 'eig':
         c = {k: data[k] for k in ('T', 'kind_T', 'n_eigs', 'left', 'form')}
+        c['dtype'] = data.get('dtype', 'float64')
         r, raw = eig_request(c)
         check_eig(ctx, c, ctx.driver([r])[0], raw)
     elif kind == 'timescales':
         c = {k: data[k] for k in ('rows', 'lags', 'builder', 'n_times', 'sliding', 'trim', 'form')}
+        c['dtype'] = data.get('dtype', 'int64')
+        c['lags_kind'] = data.get('lags_kind', 'list')
         check_timescales(ctx, c, int(ctx.driver([timescales_request(c)])[0]['ok']))
     elif kind == 'ensemble':
         c = {k: data[k] for k in ('T', 'p', 'n_steps', 'form', 'obs')}
+        for k in ('T_dtype', 'p_kind', 'obs_kind'):
+            if k in data:
+                c[k] = data[k]
         check_ensemble(ctx, c, ctx.driver([ensemble_request(c)])[0])
     elif kind == 'eig-guard':
         pass
